@@ -141,6 +141,12 @@ func Load(repoDir, verifDir string, patterns []string) (*Engine, error) {
 			e.ErrGlobs = append(e.ErrGlobs, p.Members[n].(*ssa.Global))
 		}
 	}
+	if t := e.LookupType("proto.Message"); t != nil {
+		if it, ok := t.Underlying().(*types.Interface); ok {
+			e.Sorts.ProtoMsg = it
+			e.Sorts.ProtoMsgName = shortName(t)
+		}
+	}
 	// sorts every prelude file may mention
 	e.Sorts.SortOf(types.NewSlice(types.NewInterfaceType(nil, nil)))
 	e.Sorts.SortOf(types.NewSlice(types.Typ[types.Int]))
@@ -292,6 +298,7 @@ func FnPkg(fn *ssa.Function) *ssa.Package {
 
 // pkgAliases: import aliases used throughout /repo's sources, accepted in contracts.
 var pkgAliases = map[string]string{
+	"proto": "google.golang.org/protobuf/proto",
 	"dtpb":  "datatypes_go_proto",
 	"bcrpb": "bundle_and_contained_resource_go_proto",
 	"cpb":   "codes_go_proto",
